@@ -1,7 +1,8 @@
 from _common import COMMON_NOTE
 
 META = {'title': 'Audio arrives at exactly the configured rate and tracks the speaker bit',
- 'lean_modules': ['ZxVerif.Props.C19', 'ZxVerif.Props.C19Sys'],
+ 'lean_modules': ['ZxVerif.Props.C19', 'ZxVerif.Props.C19Sys', 'ZxVerif.Props.C19X'],
+ 'extract': ['MixerConsts'],
  'modelled_code': ['rustzx-core/src/zx/sound/mixer.rs (ZXMixer::process, new_frame, pop, gen_sample beeper part, '
                    'samples_per_frame)',
                    'rustzx-core/src/zx/sound/beeper.rs (ZXBeeper: ear/mic, sample factors 0.5 and 0.1)',
